@@ -234,7 +234,7 @@ func (s *submitDouble) SubmitProposal(_ context.Context, p *api.VersionedSignedP
 	s.mu.Unlock()
 	// What every real submitter does first with a proposal: serialise it.
 	if p != nil {
-		_, _ = json.Marshal(p)
+		_ = guard(func() { _, _ = json.Marshal(p) })
 	}
 	if s.fail {
 		return errors.New("scripted submit failure")
@@ -278,6 +278,12 @@ func (a accountsDouble) AccountByPublicKey(_ context.Context, pubkey phase0.BLSP
 const proposeCtxTimeout = 150 * time.Millisecond
 
 func runPropose(c *ProposeCase, out *outcome) {
+	libBefore := libraryPanics.Load()
+	defer func() {
+		if libraryPanics.Load() > libBefore {
+			out.label("propose:response-the-client-library-itself-panics-on")
+		}
+	}()
 	initKeys()
 	ctx, cancel := context.WithCancel(context.Background())
 	defer cancel()
